@@ -99,6 +99,10 @@ def cases(ctx):
                  "blayout": rng.choice(["C", "C", "F", "strided"])}
             if kind == "rank":
                 c["rank"] = rng.randrange(sum(b))
+            if rng.random() < 0.3:
+                # members marked by other non-zero values than 1 (a weighted mask handed over as it is): which samples are
+                # selected, and hence the median, does not depend on the marks
+                c["bw"] = [rng.choice([1, 2, 3, 5]) for _ in b]
             yield c
         else:
             tsh = [rng.choice([1, 2, 3, shape[d]]) for d in range(len(shape))]
@@ -158,6 +162,8 @@ def run_case(ctx, case):
     m = M2I[mode]
     if kind in ("rank", "median", "mean"):
         b0 = np.array(case["b"], dtype=np.int64).reshape(case["bshape"])
+        if case.get("bw"):
+            b0 = b0 * np.array(case["bw"], dtype=np.int64).reshape(case["bshape"])
         b = apply_layout(b0.astype(npdt), case["blayout"], fill=1)
         if kind == "mean":
             got = mh.mean_filter(f, b, mode=mode)
